@@ -39,7 +39,7 @@ pub fn proof_event<L: LayoutTrait>(p: &StarkProof, n_ie: usize, n1: usize, n2: u
         "mask": L::MASK_SIZE, "cdeg": L::CONSTRAINT_DEGREE, "n_constraints": L::N_CONSTRAINTS, "n_ie": n_ie, "n1": n1, "n2": n2,
         "security_bits": hex(security_bits),
         "log_trace": hex(&c.log_trace_domain_size), "log_cosets": hex(&c.log_n_cosets), "n_queries": hex(&c.n_queries), "nvf": hex(&c.n_verifier_friendly_commitment_layers),
-        "pow_bits": c.proof_of_work.n_bits,
+        "pow_bits": c.proof_of_work.n_bits, "comp_ncols": hex(&c.composition.n_columns),
         "fri_log_input": hex(&c.fri.log_input_size), "fri_n_layers": hex(&c.fri.n_layers), "fri_log_last": hex(&c.fri.log_last_layer_degree_bound),
         "fri_steps": hexs(c.fri.fri_step_sizes.iter()),
         "c_orig": hex(&p.unsent_commitment.traces.original), "c_inter": hex(&p.unsent_commitment.traces.interaction), "c_comp": hex(&p.unsent_commitment.composition),
